@@ -18,6 +18,7 @@ import (
 	"go/constant"
 	"go/token"
 	"go/types"
+	"os"
 	"sort"
 	"strings"
 
@@ -79,7 +80,7 @@ func checkEscaper(w *World, c *Check, rule string) {
 		}
 		return nil, false
 	}
-	var flushClosure *ssa.Function // set below when flushes go through a local closure
+	var flushClosure *ssa.Function  // set below when flushes go through a local closure
 	var flushHelperFn *ssa.Function // set below when flushes go through a package helper
 	isWriteOrFlush := func(in ssa.Instruction) (*ssa.Call, bool) {
 		if call, ok := isWrite(in); ok {
@@ -564,16 +565,11 @@ func checkEscaper(w *World, c *Check, rule string) {
 			if !ok || p.Succs[0] != b {
 				return nil, false
 			}
-			bo, ok := ifi.Cond.(*ssa.BinOp)
-			if !ok || bo.Op != token.EQL || !isSubject(bo.X) {
+			got, ok := eqConstsOf(ifi.Cond, isSubject, 0)
+			if !ok {
 				return nil, false
 			}
-			k, ok := bo.Y.(*ssa.Const)
-			if !ok || k.Value == nil {
-				return nil, false
-			}
-			v, _ := constant.Int64Val(k.Value)
-			ks = append(ks, v)
+			ks = append(ks, got...)
 		}
 		return ks, len(ks) > 0
 	}
@@ -616,125 +612,197 @@ func checkEscaper(w *World, c *Check, rule string) {
 		return kv == k
 	}
 	nTable := 0
+	// the escape table may sit in the loop itself or in a helper the loop calls with the buffer and the byte under
+	// inspection (writeEscaped(e, b)): the helper's blocks are scanned with its byte parameter as the subject
+	type tableScope struct {
+		blocks  []*ssa.BasicBlock
+		curByte func(ssa.Value) bool
+		isBufW  func(in ssa.Instruction) (*ssa.Call, bool)
+		stop    *ssa.BasicBlock
+	}
+	var loopBlocks []*ssa.BasicBlock
 	for _, b := range esc.Blocks {
-		if !inLoop[b] {
-			continue
+		if inLoop[b] {
+			loopBlocks = append(loopBlocks, b)
 		}
-		var ws []*ssa.Call
+	}
+	scopes := []tableScope{{loopBlocks, isCurByte, func(in ssa.Instruction) (*ssa.Call, bool) {
+		if call, ok := isWrite(in); ok && !isFlush(call) {
+			return call, true
+		}
+		return nil, false
+	}, H}}
+	for _, b := range loopBlocks {
 		for _, in := range b.Instrs {
-			if call, ok := isWrite(in); ok && !isFlush(call) {
-				ws = append(ws, call)
+			call, ok := in.(*ssa.Call)
+			if !ok {
+				continue
 			}
-		}
-		if len(ws) == 0 {
-			continue
-		}
-		first := ws[0]
-		arg := first.Common().Args[1]
-		pos := w.InstrPos(first)
-		switch {
-		case len(ws) == 1 && (first.Common().StaticCallee().Name() == "WriteRune" || first.Common().StaticCallee().Name() == "WriteByte"):
-			if k, ok := arg.(*ssa.Const); ok {
-				r, _ := constant.Int64Val(k.Value)
-				if r == '\\' {
-					continue // the backslash that opens an escape
+			g := call.Common().StaticCallee()
+			if g == nil || !w.InPkg(g) || g.Blocks == nil || g == flushHelperFn {
+				continue
+			}
+			byteParam, bufParam := -1, -1
+			for ai, a := range call.Common().Args {
+				if isCurByte(a) {
+					byteParam = ai
 				}
-				ks, ok := enterConsts(b, isCurByte)
-				key := fmt.Sprintf("%s:table:\\%c", name, rune(r))
-				nTable++
-				if !ok {
-					c.bad(rule, key, pos, "cannot tell for which input byte this escape letter is written (undecided)")
+				if isBuf(a) {
+					bufParam = ai
+				}
+			}
+			if byteParam < 0 || bufParam < 0 || byteParam >= len(g.Params) || bufParam >= len(g.Params) {
+				continue
+			}
+			bp, fp := g.Params[byteParam], g.Params[bufParam]
+			scopes = append(scopes, tableScope{g.Blocks, func(v ssa.Value) bool {
+				if cv, ok := v.(*ssa.Convert); ok {
+					v = cv.X
+				}
+				return v == ssa.Value(bp)
+			}, func(in ssa.Instruction) (*ssa.Call, bool) {
+				c2, ok := in.(*ssa.Call)
+				if !ok || c2.Common().IsInvoke() || len(c2.Common().Args) < 1 || c2.Common().Args[0] != ssa.Value(fp) {
+					return nil, false
+				}
+				cal := c2.Common().StaticCallee()
+				if cal == nil {
+					return nil, false
+				}
+				switch cal.Name() {
+				case "Write", "WriteString", "WriteByte", "WriteRune":
+					return c2, true
+				}
+				return nil, false
+			}, nil})
+		}
+	}
+	for _, sc := range scopes {
+		isCurByte := sc.curByte
+		H := sc.stop
+		for _, b := range sc.blocks {
+			var ws []*ssa.Call
+			for _, in := range b.Instrs {
+				if call, ok := sc.isBufW(in); ok {
+					ws = append(ws, call)
+				}
+			}
+			if len(ws) == 0 {
+				continue
+			}
+			first := ws[0]
+			arg := first.Common().Args[1]
+			pos := w.InstrPos(first)
+			switch {
+			case len(ws) == 1 && (first.Common().StaticCallee().Name() == "WriteRune" || first.Common().StaticCallee().Name() == "WriteByte"):
+				if k, ok := arg.(*ssa.Const); ok {
+					r, _ := constant.Int64Val(k.Value)
+					if r == '\\' {
+						continue // the backslash that opens an escape
+					}
+					ks, ok := enterConsts(b, isCurByte)
+					key := fmt.Sprintf("%s:table:\\%c", name, rune(r))
+					nTable++
+					if !ok {
+						c.bad(rule, key, pos, "cannot tell for which input byte this escape letter is written (undecided)")
+						continue
+					}
+					bad := ""
+					for _, kb := range ks {
+						if jsonShortEscapes[kb] != r {
+							bad = fmt.Sprintf("input byte 0x%02x is written as the escape \\%c, which a JSON parser decodes to a different character", kb, rune(r))
+						}
+					}
+					if bad != "" {
+						c.bad(rule, key, pos, bad)
+					} else {
+						c.ok(rule, key, pos, fmt.Sprintf("written for byte(s) %v only", ks))
+					}
+				} else if isCurByte(arg) {
+					ks, ok := enterConsts(b, isCurByte)
+					key := name + ":table:identity"
+					nTable++
+					bad := ""
+					if !ok {
+						bad = "cannot tell for which input bytes the identity escape \\<byte> is written (undecided)"
+					}
+					for _, kb := range ks {
+						if jsonShortEscapes[kb] != kb {
+							bad = fmt.Sprintf("input byte 0x%02x is escaped as backslash + itself, which is not a JSON escape for that byte", kb)
+						}
+					}
+					if bad != "" {
+						c.bad(rule, key, pos, bad)
+					} else {
+						c.ok(rule, key, pos, fmt.Sprintf("identity escape for %v only", ks))
+					}
+				}
+			case len(ws) == 3:
+				k, isConst := arg.(*ssa.Const)
+				if !isConst || k.Value.Kind() != constant.String {
 					continue
 				}
-				bad := ""
-				for _, kb := range ks {
-					if jsonShortEscapes[kb] != r {
-						bad = fmt.Sprintf("input byte 0x%02x is written as the escape \\%c, which a JSON parser decodes to a different character", kb, rune(r))
+				prefix := constant.StringVal(k.Value)
+				if strings.TrimPrefix(prefix, `\`) == "u00" {
+					key := name + ":table:u00XX"
+					nTable++
+					if hexOK(ws[1].Common().Args[1], isCurByte, token.SHR, 4) && hexOK(ws[2].Common().Args[1], isCurByte, token.AND, 15) {
+						c.ok(rule, key, pos, "\\u00 + high nibble + low nibble from the 0-9a-f table")
+					} else {
+						c.bad(rule, key, pos, "the \\u00XX escape does not write hex[b>>4] followed by hex[b&0xF] from a 0123456789abcdef table: control characters decode to a different code point")
 					}
 				}
-				if bad != "" {
-					c.bad(rule, key, pos, bad)
-				} else {
-					c.ok(rule, key, pos, fmt.Sprintf("written for byte(s) %v only", ks))
+			case len(ws) == 2:
+				k, isConst := arg.(*ssa.Const)
+				if !isConst || k.Value.Kind() != constant.String {
+					continue
 				}
-			} else if isCurByte(arg) {
-				ks, ok := enterConsts(b, isCurByte)
-				key := name + ":table:identity"
-				nTable++
-				bad := ""
-				if !ok {
-					bad = "cannot tell for which input bytes the identity escape \\<byte> is written (undecided)"
-				}
-				for _, kb := range ks {
-					if jsonShortEscapes[kb] != kb {
-						bad = fmt.Sprintf("input byte 0x%02x is escaped as backslash + itself, which is not a JSON escape for that byte", kb)
+				prefix := constant.StringVal(k.Value)
+				if strings.HasPrefix(prefix, `\u`) && len(prefix) == 5 {
+					key := name + ":table:" + strings.TrimPrefix(prefix, `\`) + "X"
+					nTable++
+					// the rune subject: extract #0 of DecodeRune
+					isRune := func(v ssa.Value) bool {
+						if cv, ok := v.(*ssa.Convert); ok {
+							v = cv.X
+						}
+						ex, ok := v.(*ssa.Extract)
+						return ok && ex.Index == 0
 					}
-				}
-				if bad != "" {
-					c.bad(rule, key, pos, bad)
-				} else {
-					c.ok(rule, key, pos, fmt.Sprintf("identity escape for %v only", ks))
-				}
-			}
-		case len(ws) == 3:
-			k, isConst := arg.(*ssa.Const)
-			if !isConst || k.Value.Kind() != constant.String {
-				continue
-			}
-			prefix := constant.StringVal(k.Value)
-			if strings.TrimPrefix(prefix, `\`) == "u00" {
-				key := name + ":table:u00XX"
-				nTable++
-				if hexOK(ws[1].Common().Args[1], isCurByte, token.SHR, 4) && hexOK(ws[2].Common().Args[1], isCurByte, token.AND, 15) {
-					c.ok(rule, key, pos, "\\u00 + high nibble + low nibble from the 0-9a-f table")
-				} else {
-					c.bad(rule, key, pos, "the \\u00XX escape does not write hex[b>>4] followed by hex[b&0xF] from a 0123456789abcdef table: control characters decode to a different code point")
-				}
-			}
-		case len(ws) == 2:
-			k, isConst := arg.(*ssa.Const)
-			if !isConst || k.Value.Kind() != constant.String {
-				continue
-			}
-			prefix := constant.StringVal(k.Value)
-			if strings.HasPrefix(prefix, `\u`) && len(prefix) == 5 {
-				key := name + ":table:" + strings.TrimPrefix(prefix, `\`) + "X"
-				nTable++
-				// the rune subject: extract #0 of DecodeRune
-				isRune := func(v ssa.Value) bool {
-					if cv, ok := v.(*ssa.Convert); ok {
-						v = cv.X
+					// guards: find the nearest dominating block all of whose predecessors enter on rune == const
+					var ks []int64
+					okk := false
+					for d := b; d != nil && d != H; d = d.Idom() {
+						if os.Getenv("APCHECK_ESCDEBUG") != "" {
+							fmt.Printf("ESCDEBUG u202X block %d: walk d=%d preds=%d H=%d\n", b.Index, d.Index, len(d.Preds), H.Index)
+							for _, p := range d.Preds {
+								fmt.Printf("   pred %d: %s succ0=%d\n", p.Index, p.Instrs[len(p.Instrs)-1], p.Succs[0].Index)
+							}
+						}
+						if got, ok := enterConsts(d, isRune); ok {
+							ks, okk = got, true
+							break
+						}
 					}
-					ex, ok := v.(*ssa.Extract)
-					return ok && ex.Index == 0
-				}
-				// guards: find the nearest dominating block all of whose predecessors enter on rune == const
-				var ks []int64
-				okk := false
-				for d := b; d != nil && d != H; d = d.Idom() {
-					if got, ok := enterConsts(d, isRune); ok {
-						ks, okk = got, true
-						break
+					bad := ""
+					if !okk {
+						bad = "cannot tell for which code points this escape is written (undecided)"
 					}
-				}
-				bad := ""
-				if !okk {
-					bad = "cannot tell for which code points this escape is written (undecided)"
-				}
-				var want int64
-				fmt.Sscanf(prefix[2:], "%x", &want)
-				for _, kr := range ks {
-					if kr>>4 != want {
-						bad = fmt.Sprintf("code point U+%04X is written with the prefix %s", kr, prefix)
+					var want int64
+					fmt.Sscanf(prefix[2:], "%x", &want)
+					for _, kr := range ks {
+						if kr>>4 != want {
+							bad = fmt.Sprintf("code point U+%04X is written with the prefix %s", kr, prefix)
+						}
 					}
-				}
-				if bad == "" && !hexOK(ws[1].Common().Args[1], isRune, token.AND, 15) {
-					bad = "the last hex digit is not hex[c&0xF]"
-				}
-				if bad != "" {
-					c.bad(rule, key, pos, bad)
-				} else {
-					c.ok(rule, key, pos, fmt.Sprintf("written for code points %x only, last digit from the low nibble", ks))
+					if bad == "" && !hexOK(ws[1].Common().Args[1], isRune, token.AND, 15) {
+						bad = "the last hex digit is not hex[c&0xF]"
+					}
+					if bad != "" {
+						c.bad(rule, key, pos, bad)
+					} else {
+						c.ok(rule, key, pos, fmt.Sprintf("written for code points %x only, last digit from the low nibble", ks))
+					}
 				}
 			}
 		}
@@ -877,4 +945,52 @@ func isGuardedFlushHelper(h *ssa.Function) bool {
 		}
 	}
 	return ok && writes == 1
+}
+
+// eqConstsOf: cond is true exactly when the subject equals one of the returned constants: subject == k, or a
+// disjunction of such tests lowered to a phi (a || b evaluates b only when a is false).
+func eqConstsOf(cond ssa.Value, isSubject func(ssa.Value) bool, depth int) ([]int64, bool) {
+	if depth > 6 {
+		return nil, false
+	}
+	switch x := cond.(type) {
+	case *ssa.BinOp:
+		if x.Op != token.EQL || !isSubject(x.X) {
+			return nil, false
+		}
+		k, ok := x.Y.(*ssa.Const)
+		if !ok || k.Value == nil {
+			return nil, false
+		}
+		v, _ := constant.Int64Val(k.Value)
+		return []int64{v}, true
+	case *ssa.Phi:
+		var ks []int64
+		for i, e := range x.Edges {
+			p := x.Block().Preds[i]
+			if k, isConst := e.(*ssa.Const); isConst && k.Value != nil && k.Value.Kind() == constant.Bool {
+				if !constant.BoolVal(k.Value) {
+					continue // this way in the disjunction is false
+				}
+				// true because the predecessor's own test succeeded
+				ifi, ok := p.Instrs[len(p.Instrs)-1].(*ssa.If)
+				if !ok || p.Succs[0] != x.Block() {
+					return nil, false
+				}
+				got, ok := eqConstsOf(ifi.Cond, isSubject, depth+1)
+				if !ok {
+					return nil, false
+				}
+				ks = append(ks, got...)
+				continue
+			}
+			got, ok := eqConstsOf(e, isSubject, depth+1)
+			if !ok {
+				return nil, false
+			}
+			ks = append(ks, got...)
+		}
+		return ks, len(ks) > 0
+	}
+	return nil, false
 }
